@@ -170,7 +170,7 @@ def readQueueF (inj : BSt → Nat → BSt) (tsNow : Option Nat) (i : Nat) : Nat 
         | .removal f => { s1 with removalFlags := s1.removalFlags ++ [((s1.lgOf st.lg).gid, f)] }
         | _ => s1
       let s3 := s2.setTh i (fun t => { t with q := qFinishRead s2.cfg t.q st.size, qStmts := rest, buf := t.buf ++ [st] })
-      let s4 := inj s3 3
+      let s4 := inj (fmtNote s3 st) 3
       let total' := total + st.size
       if total' < s4.cfg.qcap ∧ (s4.th i).buf.length < s4.cfg.hard then readQueueF inj tsNow i fuel total' s4
       else (s4.setTh i (fun t => { t with q := qCommitRead s4.cfg t.q }), false)
